@@ -38,8 +38,8 @@ Proof.
 Qed.
 Print Assumptions C07_supplied_is_solved.
 
-(* the property, under the guard G07 (no in-service dcline; no in-service trafo/trafo3w/impedance at an
-   out-of-service bus; references resolve) and distinct trafo3w terminals: for every bus of the bus table,
+(* the property, under the guard G07 (no in-service dcline; references of in-service branches and closed bus-bus
+   switches resolve) and distinct trafo3w terminals: for every bus of the bus table,
    finite voltage <=> Supplied, and reported by the topology module <=> in service and not Supplied *)
 Theorem C07_unsupplied_nan_topology_partial : forall n, G07 n = true -> t3_distinct n = true ->
   forall b, bus_known n b = true ->
@@ -48,17 +48,20 @@ Theorem C07_unsupplied_nan_topology_partial : forall n, G07 n = true -> t3_disti
 Proof. exact c07_partial. Qed.
 Print Assumptions C07_unsupplied_nan_topology_partial.
 
-(* without the guard the full statement is false of the faithful model: *)
-(* (a) a bus fed only through a dcline is NaN in the power flow but not reported by the topology module *)
+(* without the guard the full statement is false of the faithful model: a bus fed only through a dcline is NaN in the power flow but not reported by the topology module *)
 Theorem C07_topo_eq_pf_refuted :
   exists n b, bus_is n b = true /\ nan_bus n b = true /\ ~ In b (topo_unsupplied n).
 Proof. exact topo_eq_pf_refuted. Qed.
 Print Assumptions C07_topo_eq_pf_refuted.
-(* (b) an in-service bus behind an out-of-service bus (two impedances) is not isolated by the power flow *)
-Theorem C07_pf_isolated_iff_supplied_refuted :
-  exists n b, bus_is n b = true /\ nan_bus n b = false /\ ~ Supplied n b.
-Proof. exact pf_isolated_iff_supplied_refuted. Qed.
-Print Assumptions C07_pf_isolated_iff_supplied_refuted.
+(* regression witness: before the repair "the connectivity check does not walk through out-of-service buses" an
+   in-service bus behind an out-of-service bus (two impedances) was not isolated by the power flow; now it is *)
+Theorem C07_pf_isolated_iff_supplied_old_refuted :
+  exists n b, bus_is n b = true /\ nan_bus_old n b = false /\ ~ Supplied n b.
+Proof. exact pf_isolated_iff_supplied_old_refuted. Qed.
+Print Assumptions C07_pf_isolated_iff_supplied_old_refuted.
+Example C07_bridge_now_isolated : nan_bus w_bridge 3 = true /\ G07 w_bridge = true.
+Proof. vm_compute. split; reflexivity. Qed.
+Print Assumptions C07_bridge_now_isolated.
 
 Example C07_partial_nonvacuous :
   G07 w_ok = true /\ t3_distinct w_ok = true /\
@@ -67,14 +70,13 @@ Example C07_partial_nonvacuous :
 Proof. exact c07_partial_nonvacuous. Qed.
 Print Assumptions C07_partial_nonvacuous.
 
-(* zero power of dead elements, ext_grid rows: an ext_grid that is not an in-service element reports exactly 0
-   when some ext_grid row has in_service = True (guard G07eg) ... *)
-Theorem C07_ext_grid_zero_partial : forall egs k e, G07eg egs = true -> nth_error egs k = Some e ->
-  snd (fst e) = false -> nth_error (res_ext_grid_p egs) k = Some (Some 0%Q).
-Proof. exact ext_grid_zero_partial. Qed.
-Print Assumptions C07_ext_grid_zero_partial.
-(* ... and NaN (None) otherwise: the full statement "out-of-service elements report zero power" is false of the model *)
-Theorem C07_ext_grid_zero_refuted :
-  exists egs k e, nth_error egs k = Some e /\ snd (fst e) = false /\ nth_error (res_ext_grid_p egs) k = Some None.
-Proof. exact ext_grid_zero_refuted. Qed.
-Print Assumptions C07_ext_grid_zero_refuted.
+(* zero power of dead elements, ext_grid rows: an ext_grid that is not an in-service element reports exactly 0 *)
+Theorem C07_ext_grid_zero : forall egs k e, nth_error egs k = Some e -> snd (fst e) = false ->
+  nth_error (res_ext_grid_p egs) k = Some (Some 0%Q).
+Proof. exact ext_grid_zero. Qed.
+Print Assumptions C07_ext_grid_zero.
+(* regression witness: before the repair "res_ext_grid is written also when no ext_grid is in service" it reported NaN *)
+Theorem C07_ext_grid_zero_old_refuted :
+  exists egs k e, nth_error egs k = Some e /\ snd (fst e) = false /\ nth_error (res_ext_grid_p_old egs) k = Some None.
+Proof. exact ext_grid_zero_old_refuted. Qed.
+Print Assumptions C07_ext_grid_zero_old_refuted.
